@@ -65,6 +65,7 @@ type Fact struct {
 	Ord  Ord
 	Bool bool
 	If   *ssa.If // the branch that established it
+	At   ssa.Instruction // the instruction that reads X and Y (Cmp/Sign call), for big.Int object state
 }
 
 func (f Fact) String() string {
@@ -197,14 +198,14 @@ func CondFacts(cond ssa.Value, branch bool, iff *ssa.If) []Fact {
 				if !branch {
 					o = Any &^ o
 				}
-				return []Fact{{Kind: FCmp, X: c.Call.Args[0], Y: c.Call.Args[1], Ord: o, If: iff}}
+				return []Fact{{Kind: FCmp, X: c.Call.Args[0], Y: c.Call.Args[1], Ord: o, If: iff, At: c}}
 			}
 			if c, ok := IsCallTo(l, bigSign); ok {
 				o, _ := ordVsConst(op, k)
 				if !branch {
 					o = Any &^ o
 				}
-				return []Fact{{Kind: FSign, X: c.Call.Args[0], Ord: o, If: iff}}
+				return []Fact{{Kind: FSign, X: c.Call.Args[0], Ord: o, If: iff, At: c}}
 			}
 		}
 		if isIntegral(l.Type()) && isIntegral(r.Type()) {
